@@ -295,4 +295,8 @@ theorem nesting_preserves_type (e : Nest) :
 example : (Nest.label (Nest.subq (Nest.union (Nest.label (Nest.col true)) (Nest.col false)))).procCount = 1 := by
   decide
 
+/-- `label(name, expr, type_=T)` over an expression of another type: `T` is what every outer
+    nesting level sees (`Label._make_proxy` copies the label's type onto the proxy column) -/
+example : (Nest.subq (Nest.subq (Nest.labelT true (Nest.col false)))).procCount = 1 := by decide
+
 end SaVerif.Props.C09
